@@ -9,7 +9,7 @@ TOPICS = ["a", "a/b", "b", "a/b/c", "c"]
 FILTERS = ["a", "a/b", "a/+", "a/#", "+", "#", "b", "+/b", "a/b/c", "+/+"]
 
 # events written by the harness itself: a rejection there is a harness/modelling problem, never a violation
-HARNESS_EVENTS = {"config", "popen", "psend", "pclose", "cut", "pnote", "peof", "newconn", "bclose.call", "bclose.ret", "disconnected",
+HARNESS_EVENTS = {"config", "popen", "psend", "precv", "pclose", "cut", "pnote", "peof", "newconn", "bclose.call", "bclose.ret", "disconnected",
                   "api.call", "newclient", "gate.hold", "gate.release", "dial", "svc.call"}
 
 KINDS = {
